@@ -125,6 +125,7 @@ type Vaxis struct {
 	chFg             chan string
 	chBg             chan string
 	chColor          chan string
+	queryMu          sync.Mutex // one colour query at a time: the replies carry no requester
 	userCursorStyle  CursorStyle
 	// modes which were already set when we started are left set on exit
 	keepUnicodeCore bool
@@ -1204,10 +1205,45 @@ func offerReply(ch chan string, reply string) {
 	}
 }
 
+// colorQueryTimeout is how long a colour query waits for the terminal's reply
+const colorQueryTimeout = time.Second
+
+// queryColor writes a colour query and waits for the reply on ch. Callers
+// are served one at a time: the reply slot is shared and a reply does not say
+// who asked. ok is false when no reply arrived in time or Vaxis was closed
+// meanwhile
+func (vx *Vaxis) queryColor(ch chan string, query string) (resp string, ok bool) {
+	vx.queryMu.Lock()
+	defer vx.queryMu.Unlock()
+	select {
+	case <-vx.chQuit:
+		return "", false
+	default:
+	}
+	// drop a reply left over from a query which timed out
+	select {
+	case <-ch:
+	default:
+	}
+	vx.tw.WriteStringLocked(query)
+	timeout := time.NewTimer(colorQueryTimeout)
+	defer timeout.Stop()
+	select {
+	case resp = <-ch:
+		return resp, true
+	case <-timeout.C:
+		log.Warn("color query timed out")
+		return "", false
+	case <-vx.chQuit:
+		return "", false
+	}
+}
+
 // QueryColor queries the host terminal for an indexed color and returns
 // it as an instance of an RGB vaxis.Color. If the host terminal doesn't
-// support this, Color(0) is returned instead. Make sure not to run this
-// in the same goroutine as Vaxis runs in or deadlock will occur.
+// support this, or doesn't answer, Color(0) is returned instead. Make sure
+// not to run this in the same goroutine as Vaxis runs in or deadlock will
+// occur.
 func (vx *Vaxis) QueryColor(c Color) Color {
 	if !vx.CanReportColor() {
 		return Color(0)
@@ -1220,8 +1256,10 @@ func (vx *Vaxis) QueryColor(c Color) Color {
 	if len(p) != 1 {
 		return Color(0)
 	}
-	vx.tw.WriteStringLocked(tparm(osc4, p[0]))
-	resp := <-vx.chColor
+	resp, ok := vx.queryColor(vx.chColor, tparm(osc4, p[0]))
+	if !ok {
+		return Color(0)
+	}
 	var r, g, b int
 	prefix := fmt.Sprintf("4;%v;", p[0])
 	_, err := fmt.Sscanf(resp, prefix+"rgb:%x/%x/%x", &r, &g, &b)
@@ -1238,14 +1276,16 @@ func (vx *Vaxis) QueryColor(c Color) Color {
 
 // QueryForeground queries the host terminal for foreground color and returns
 // it as an instance of vaxis.Color. If the host terminal doesn't support this,
-// Color(0) is returned instead. Make sure not to run this in the same
-// goroutine as Vaxis runs in or deadlock will occur.
+// or doesn't answer, Color(0) is returned instead. Make sure not to run this
+// in the same goroutine as Vaxis runs in or deadlock will occur.
 func (vx *Vaxis) QueryForeground() Color {
 	if !vx.CanReportForegroundColor() {
 		return Color(0)
 	}
-	vx.tw.WriteStringLocked(osc10)
-	resp := <-vx.chFg
+	resp, ok := vx.queryColor(vx.chFg, osc10)
+	if !ok {
+		return Color(0)
+	}
 	var r, g, b int
 	_, err := fmt.Sscanf(resp, "10;rgb:%x/%x/%x", &r, &g, &b)
 	if err != nil {
@@ -1258,14 +1298,16 @@ func (vx *Vaxis) QueryForeground() Color {
 
 // QueryBackground queries the host terminal for background color and returns
 // it as an instance of vaxis.Color. If the host terminal doesn't support this,
-// Color(0) is returned instead. Make sure not to run this in the same
-// goroutine as Vaxis runs in or deadlock will occur.
+// or doesn't answer, Color(0) is returned instead. Make sure not to run this
+// in the same goroutine as Vaxis runs in or deadlock will occur.
 func (vx *Vaxis) QueryBackground() Color {
 	if !vx.CanReportBackgroundColor() {
 		return Color(0)
 	}
-	vx.tw.WriteStringLocked(osc11)
-	resp := <-vx.chBg
+	resp, ok := vx.queryColor(vx.chBg, osc11)
+	if !ok {
+		return Color(0)
+	}
 	var r, g, b int
 	_, err := fmt.Sscanf(resp, "11;rgb:%x/%x/%x", &r, &g, &b)
 	if err != nil {
